@@ -47,6 +47,7 @@ var props = map[string]propConf{
 	"C04": {Engine: "E1+E2", QuickBudget: 12, ThorBudget: 600},
 	"C06": {Engine: "E1+E2", QuickBudget: 12, ThorBudget: 600},
 	"C08": {Engine: "E1", QuickBudget: 12, ThorBudget: 600},
+	"C10": {Engine: "E1+E2", QuickBudget: 15, ThorBudget: 600},
 	"C12": {Engine: "E2", QuickBudget: 15, ThorBudget: 600},
 	"C09": {Engine: "E2", QuickBudget: 15, ThorBudget: 600},
 }
@@ -504,12 +505,12 @@ func report(id, tier string, seed uint64, pc propConf, sums []*summary, b *built
 	}
 	fmt.Printf("vsim: %s %s: %d runs (%d distinct non-trivial, %d distinct interleavings), %.0f runs/h, sim time %d ms, %d violation(s), %d known, %.1fs\n",
 		id, tier, agg.Evaluations, len(nontriv), len(scheds), runsPerHour, agg.SimMs, len(real), len(knownSeen), wall)
+	if len(real) > 0 {
+		return 1
+	}
 	if len(nontriv) < 2 {
 		fmt.Fprintln(os.Stderr, "vsim: fewer than 2 distinct non-trivial runs: the batch explored nothing (infrastructure problem)")
 		return 2
-	}
-	if len(real) > 0 {
-		return 1
 	}
 	return 0
 }
